@@ -380,8 +380,14 @@ def allowed_locations(I: Interp, mods: Optional[List[str]], sf: Frame):
             if isinstance(tree, ast.Attribute):
                 head = tree.value
                 key = "f:" + tree.attr
-                if isinstance(head, ast.Name) and (head.id in ("_", "ANY") or (not sf.has(head.id) and isinstance(sf.module.resolve_name(head.id), ClassInfo))):
+                if isinstance(head, ast.Name) and head.id in ("_", "ANY"):
                     fields[key] = None
+                    continue
+                from .calls import class_named
+                ci = class_named(head, sf)
+                if ci is not None:
+                    if not (key in fields and fields[key] is None):
+                        fields.setdefault(key, []).append(("cls", ci))
                     continue
                 base = ev_spec(I, ast.unparse(head), sf)
                 if key in fields and fields[key] is None:
@@ -416,7 +422,7 @@ def check_frame(I: Interp, base_heap: dict, base_alloc, mods, sf: Frame, kind: s
             refs = lists
         else:
             refs = dicts
-        excl = [r != x for x in refs]
+        excl = [(z3.Not(st.subclass_pred(z3.Select(st.arr("cls"), r), x[1])) if isinstance(x, tuple) else r != x) for x in refs]
         goal = z3.ForAll([r], z3.Implies(z3.And(r > 0, r < base_alloc, *excl), z3.Select(cur, r) == z3.Select(old, r)))
         st.oblige(kind, f"{label}.{key}", goal)
 
